@@ -28,10 +28,13 @@ RULE = ("Pre-write failures: yaml-set (unmatched --mustexist path, failed "
         "listing unchanged, target bytes identical. Fault sequences: for "
         "each successful base case (yaml-set --backup, yaml-merge "
         "--overwrite --backup, eyaml-rotate-keys --backup with a stand-in "
-        "eyaml; stale .bak present / absent; YAML and JSON targets) every "
+        "eyaml; stale .bak present / absent; YAML and JSON targets; target "
+        "a regular file or a symbolic link to the document) every "
         "I/O call of the save is failed in turn (open for write, each "
         "write(), copy2, remove, copyfileobj - a write() fault leaves the "
-        "file partially written): target or .bak must still hold the "
+        "file partially written; each write() of the dump additionally "
+        "failed with AssertionError, the serializer failure yaml-set's "
+        "restore handler is written for): target or .bak must still hold the "
         "complete original bytes. Non-trivial = the fault lands after the "
         "first destructive step (truncate / remove), or a pre-write failure "
         "with a stale .bak; distinct by (tool, case, k).")
@@ -57,9 +60,10 @@ class Fault(OSError):
 class Injector:
     """Counting / failing proxies for the I/O primitives of a save."""
 
-    def __init__(self, fail_at=None):
+    def __init__(self, fail_at=None, kind="oserror"):
         self.count = 0
         self.fail_at = fail_at
+        self.kind = kind
         self.events = []
         self.destructive_at = None
 
@@ -69,6 +73,11 @@ class Injector:
         if destructive and self.destructive_at is None:
             self.destructive_at = self.count
         if self.fail_at is not None and self.count == self.fail_at:
+            if self.kind == "assertion":
+                # the serializer giving up midway (the failure yaml-set's
+                # restore-the-original handler is written for)
+                raise AssertionError("injected dump failure at %s #%d"
+                                     % (what, self.count))
             raise Fault(errno.EIO, "injected fault at %s #%d" % (what,
                                                                   self.count))
 
@@ -249,24 +258,30 @@ def prewrite_cases(res, tmp):
 
 # -- (2) fault sequences -----------------------------------------------------
 def base_cases():
+    """(tool, doc, ext, stale .bak present, extra argv, target is a symlink)"""
     cases = []
     for di, doc in enumerate(DOCS):
         json_doc = doc.lstrip().startswith("{")
         ext = ".json" if json_doc else ".yaml"
         key = "/a" if not doc.startswith("-") else "/[0]"
         for stale in (False, True):
-            cases.append(("yaml-set", doc, ext, stale,
-                          ["--change", key, "--value", "changed",
-                           "--backup"]))
-            if not doc.startswith("-"):
-                cases.append(("yaml-merge", doc, ext, stale, []))
+            for link in (False, True):
+                if link and di not in (0, 3):
+                    continue
+                cases.append(("yaml-set", doc, ext, stale,
+                              ["--change", key, "--value", "changed",
+                               "--backup"], link))
+                if not doc.startswith("-"):
+                    cases.append(("yaml-merge", doc, ext, stale, [], link))
     secret_doc = "plain: text\nsecret: %s\nlist:\n  - %s\n"
     for stale in (False, True):
-        cases.append(("eyaml-rotate-keys", secret_doc, ".yaml", stale, []))
+        for link in (False, True):
+            cases.append(("eyaml-rotate-keys", secret_doc, ".yaml", stale,
+                          [], link))
     return cases
 
 
-def setup_case(tool, doc, ext, stale, extra, tmp):
+def setup_case(tool, doc, ext, stale, extra, tmp, link=False):
     d = tempfile.mkdtemp(dir=tmp)
     target = os.path.join(d, "target" + ext)
     env = {}
@@ -297,7 +312,12 @@ def setup_case(tool, doc, ext, stale, extra, tmp):
         rhs = os.path.join(d, "rhs.yaml")
         open(rhs, "w").write("z: merged\n")
         argv = ["-S", "--overwrite", target, "--backup", target, rhs]
-    open(target, "w").write(doc)
+    if link:
+        # the user's file is a symbolic link to the real document
+        open(os.path.join(d, "real" + ext), "w").write(doc)
+        os.symlink("real" + ext, target)
+    else:
+        open(target, "w").write(doc)
     if stale:
         open(target + ".bak", "w").write("stale backup\n")
     return d, target, argv, doc.encode()
@@ -305,16 +325,16 @@ def setup_case(tool, doc, ext, stale, extra, tmp):
 
 def fault_cases(res, tmp, part, parts, dl):
     n = 0
-    for tool, doc, ext, stale, extra in base_cases():
+    for tool, doc, ext, stale, extra, link in base_cases():
         n += 1
         if n % parts != part:
             continue
         # dry run: count the I/O events of a successful save
         d, target, argv, original = setup_case(tool, doc, ext, stale, extra,
-                                               tmp)
+                                               tmp, link)
         inj = Injector()
         case0 = {"tool": tool, "doc": doc if "%s" not in doc else "<secrets>",
-                 "ext": ext, "stale_bak": stale}
+                 "ext": ext, "stale_bak": stale, "symlink": link}
         res.evaluations += 1
         try:
             out = run_tool(tool, argv, inj)
@@ -328,6 +348,7 @@ def fault_cases(res, tmp, part, parts, dl):
             shutil.rmtree(d, ignore_errors=True)
             continue
         total = inj.count
+        dry_events = list(inj.events)
         bak = target + ".bak"
         ok_bak = os.path.exists(bak) and open(bak, "rb").read() == original
         if not ok_bak:
@@ -340,15 +361,21 @@ def fault_cases(res, tmp, part, parts, dl):
                      case0, "target unchanged after a successful run")
         res.label("fault-base:%s:%d-events" % (tool, total))
         shutil.rmtree(d, ignore_errors=True)
-        for k in range(1, total + 1):
+        plan_ = [(k, "oserror") for k in range(1, total + 1)]
+        # the serializer failing midway: every write() of the save but, to
+        # bound the count, at most the first 6 and the last 2
+        wk = [k for k in range(1, total + 1) if dry_events[k - 1] == "write"]
+        plan_ += [(k, "assertion") for k in (wk[:6] + wk[-2:] if len(wk) > 8
+                                             else wk)]
+        for k, fkind in plan_:
             if dl.expired():
                 res.truncated = True
                 return
             d, target, argv, original = setup_case(tool, doc, ext, stale,
-                                                   extra, tmp)
-            inj = Injector(fail_at=k)
+                                                   extra, tmp, link)
+            inj = Injector(fail_at=k, kind=fkind)
             res.evaluations += 1
-            case = dict(case0, fault_at=k)
+            case = dict(case0, fault_at=k, fault_kind=fkind)
             try:
                 out = run_tool(tool, argv, inj)
             except CaseTimeout:
@@ -363,7 +390,7 @@ def fault_cases(res, tmp, part, parts, dl):
             if tbytes != original and bbytes != original:
                 res.fail({"clause": "target-or-backup-holds-the-original",
                           "tool": tool, "event": event,
-                          "stale_bak": stale}, case,
+                          "stale_bak": stale, "fault": fkind}, case,
                          "after a fault at event %d (%s of %r): target %s, "
                          ".bak %s" % (
                              k, event, inj.events,
@@ -374,11 +401,13 @@ def fault_cases(res, tmp, part, parts, dl):
                              "%d bytes" % len(bbytes)))
             else:
                 if inj.destructive_at is not None and k >= inj.destructive_at:
-                    res.nontrivial(key=["fault", tool, ext, stale, k,
-                                        len(original)], sample=False)
+                    res.nontrivial(key=["fault", tool, ext, stale, k, fkind,
+                                        link, len(original)], sample=False)
                     if len(res.samples) < 3:
                         res.samples.append(dict(case, events=inj.events))
-                res.label("fault:%s:%s" % (tool, event))
+                res.label("fault:%s:%s%s%s" % (
+                    tool, event, ":assertion" if fkind == "assertion" else "",
+                    ":symlink" if link else ""))
             shutil.rmtree(d, ignore_errors=True)
 
 
